@@ -294,6 +294,19 @@ def expand_atoms(fa: FuncAnalysis, atoms: List[Tuple[ast.AST, bool]], depth: int
                     out += new
                     nxt += new
                 continue
+            # found = next((x for x in xs if COND), SENTINEL); `found is not SENTINEL` -> COND holds for the element found
+            if isinstance(a, ast.Compare) and len(a.ops) == 1 and isinstance(a.ops[0], (ast.Is, ast.IsNot)) and isinstance(a.left, ast.Name) and a.left.id in fa.locals:
+                differs = isinstance(a.ops[0], ast.IsNot) == pol
+                sdefs = [n for n in _own(fa.fi) if isinstance(n, ast.Assign) and len(n.targets) == 1 and isinstance(n.targets[0], ast.Name) and n.targets[0].id == a.left.id]
+                if differs and len(sdefs) == 1 and isinstance(sdefs[0].value, ast.Call) and isinstance(sdefs[0].value.func, ast.Name) and sdefs[0].value.func.id == "next" and len(sdefs[0].value.args) == 2:
+                    gen, sentinel = sdefs[0].value.args
+                    if isinstance(gen, ast.GeneratorExp) and len(gen.generators) == 1 and ast.dump(sentinel) == ast.dump(a.comparators[0]):
+                        new = []
+                        for cond_ in gen.generators[0].ifs:
+                            new += [norm_atom(x, p) for x, p in facts_true(cond_)]
+                        out += new
+                        nxt += new
+                continue
             if not (isinstance(a, ast.Call) and not a.keywords):
                 continue
             callee = None
